@@ -22,6 +22,8 @@ var allModes = []modeT{
 	{Streamed: true, CacheLeaves: 0, Prefetch: 0, VerifyHash: false},
 	{Streamed: true, CacheLeaves: 1, Prefetch: 2, VerifyHash: true},
 	{Streamed: true, CacheLeaves: 4, Prefetch: 1, VerifyHash: false},
+	{Streamed: false, Preload: true},
+	{Streamed: true, CacheLeaves: 2, VerifyHash: true, Preload: true},
 }
 
 // runPinned executes a pinned case in every mount mode
